@@ -212,3 +212,22 @@ func (v VerifMu) Lock(ctx context.Context) error { return v.m.lock(ctx) }
 func (v VerifMu) TryLock() bool                  { return v.m.tryLock() }
 func (v VerifMu) ForceLock()                     { v.m.forceLock() }
 func (v VerifMu) Unlock()                        { v.m.unlock() }
+
+// VerifArmTimeout hands ctx to the connection's timeout goroutine the way a frame read (read == true) or a frame
+// write does: through c.readTimeout / c.writeTimeout, unless the connection is closed. It reports whether the
+// goroutine received it.
+func VerifArmTimeout(c *Conn, read bool, ctx context.Context) bool {
+	ch := c.writeTimeout
+	if read {
+		ch = c.readTimeout
+	}
+	select {
+	case <-c.closed:
+		return false
+	case ch <- ctx:
+		return true
+	}
+}
+
+// VerifIsClosed reports whether the connection is closed.
+func VerifIsClosed(c *Conn) bool { return c.isClosed() }
